@@ -30,6 +30,7 @@ def run_calls(chk, rng, replay, n_quick, n_thorough):
             c["kind"] = "tangential"
             cases.append(c)
         cases += [subgen.gen_coupled(rng, 6) for _ in range(n // 2)]
+        cases += [subgen.gen(rng, "tangential") for _ in range(n // 2)]      # more of the generic mix for the decrease clauses
     out, reqs = [], []
     crashed = []
     for c in cases:
